@@ -1,7 +1,11 @@
 (** Correspondence glue for C04: run the patch model on what the harness recorded (final tree and
     TemplatedFile of a fix run, or a raw patch list) and compare with the implementation's patch
     list and fixed text. No logic of the kernel lives here. *)
+From Coq Require Export String Ascii.
 From Sq Require Import Base.Corr Patch.Model.
+
+(* compact text literals in generated cases: (S "...") *)
+Definition S (s : string) : str := List.map N_of_ascii (list_ascii_of_string s).
 
 Definition rpatch := (N * N * str)%type.
 Definition to_p (x : rpatch) : patch := mkPatch (fst (fst x)) (snd (fst x)) (snd x).
